@@ -92,7 +92,16 @@ def run(F, want=None):
             nread += 1
             fn = b.path.split("::{closure")[0]
             last = fn.split("::")[-1]
-            allowed = last in ("derive0", "derive1", "derive2", "derive2_mixed", "derive3", "clone", "fmt") or "::new_nvt_unchecked" in fn or fn.endswith("State::<E>::new_nvt_unchecked")
+            ALLOWED = ("derive0", "derive1", "derive2", "derive2_mixed", "derive3", "clone", "fmt")
+            allowed = last in ALLOWED or "::new_nvt_unchecked" in fn or fn.endswith("State::<E>::new_nvt_unchecked")
+            if not allowed:
+                # a private helper shared by the derive* constructors (`derive_single(derivative, seed)`): it lifts the variables into
+                # a StateHD like they do, and nobody else can call it
+                fb = F.body(fn)
+                if fb is not None and fb.get("vis") != "Public" and "StateHD<" in (fb.lty(0) or {}).get("s", ""):
+                    callers = {c.path.split("::{closure")[0] for c in F.bodies for _bi, t_ in c.calls()
+                               if F.callee_body(t_) is not None and F.callee_body(t_).path == fn}
+                    allowed = bool(callers) and all(c.split("::")[-1] in ALLOWED and c.startswith("feos_core::state::") for c in callers)
             iid = "reduced|%s" % fn
             if allowed:
                 r.inst(iid, b.file_line(), "ok", reads=sorted(hits))
